@@ -235,6 +235,19 @@ func ops() []op {
 			func(in any, w io.Writer) error { _, err := in.(*bundle.Bundle).WriteTo(w); return err }})
 	}
 	// many exchanges of very uneven size (a writer that encodes responses in parallel must still lay them out in order)
+	// the destination is an exported CountingWriter that has already carried other output - a different amount on every
+	// call: the bundle's bytes (its trailing length among them) are a function of the bundle, not of the writer's past
+	for _, ver := range []bver.Version{bver.VersionB1, bver.VersionB2} {
+		ver := ver
+		out = append(out, op{"Bundle.WriteTo/into a CountingWriter with earlier output/" + string(ver), func(o *mon.Rand) any { return buildBundle(o, ver) },
+			func(in any, w io.Writer) error {
+				n := int(atomic.AddInt64(&countingCalls, 1) % 23)
+				cw := bundle.NewCountingWriter(&skipWriter{w: w, skip: n})
+				cw.Write(bytes.Repeat([]byte{'#'}, n))
+				_, err := in.(*bundle.Bundle).WriteTo(cw)
+				return err
+			}})
+	}
 	out = append(out, op{"Bundle.WriteTo/many-uneven-exchanges", func(o *mon.Rand) any {
 		b := &bundle.Bundle{Version: bver.VersionB2}
 		for i := 0; i < 100; i++ {
@@ -574,6 +587,32 @@ func record(g int, o op, inputID, phase string, in any, yw *yieldingWriter) even
 	history = append(history, ev)
 	histMu.Unlock()
 	return ev
+}
+
+var countingCalls int64
+
+// skipWriter drops the first skip bytes it is given (the caller's preamble) and passes the rest on.
+type skipWriter struct {
+	w    io.Writer
+	skip int
+}
+
+func (s *skipWriter) Write(p []byte) (int, error) {
+	n := len(p)
+	if s.skip > 0 {
+		k := s.skip
+		if k > len(p) {
+			k = len(p)
+		}
+		s.skip -= k
+		p = p[k:]
+	}
+	if len(p) > 0 {
+		if _, err := s.w.Write(p); err != nil {
+			return 0, err
+		}
+	}
+	return n, nil
 }
 
 func main() { mon.Main("C18", run) }
